@@ -10,7 +10,6 @@ use http::header::HeaderValue;
 use smallvec::SmallVec;
 use std::cmp;
 use std::ops::Range;
-use std::str::FromStr;
 
 /// Represents a `Range:` header which has been parsed and resolved to a particular entity length.
 #[derive(Debug, Eq, PartialEq)]
@@ -30,12 +29,20 @@ pub(crate) enum ResolvedRanges {
 }
 
 /// Parses a `first-byte-pos`, `last-byte-pos` or `suffix-length`: `1*DIGIT`.
-/// (`u64::from_str` alone would also accept a leading `+`, which the grammar doesn't allow.)
+/// A number too large for `u64` saturates; it is beyond the end of any entity either way.
 fn parse_pos(s: &str) -> Option<u64> {
-    if s.starts_with("+") {
+    let digits = s.as_bytes();
+    if digits.is_empty() {
         return None;
     }
-    u64::from_str(s).ok()
+    let mut pos: u64 = 0;
+    for d in digits {
+        if !d.is_ascii_digit() {
+            return None;
+        }
+        pos = pos.saturating_mul(10).saturating_add(u64::from(*d - b'0'));
+    }
+    Some(pos)
 }
 
 /// Parses the byte-range-set in the range header as described in [RFC 7233 section
